@@ -440,11 +440,11 @@ def eval_disabled(case):
 FAMILIES = [
     Family("nest2", eval_nest, enumerate=enum_nest2, shards_quick=4, shards_thorough=8, exhaustive=True,
            required_labels=["depth=2", "exc", "overlap"]),
-    Family("nest_deep", eval_nest, strategy=strat_nest_deep, n_quick=1500, n_thorough=20000, shards_quick=2,
+    Family("nest_deep", eval_nest, strategy=strat_nest_deep, n_quick=3000, n_thorough=20000, shards_quick=2,
            shards_thorough=8, required_labels=["depth=4", "entry=exitstack", "entry=generator"]),
     Family("env_parse", eval_env_parse, enumerate=enum_env, shards_quick=1, shards_thorough=1, exhaustive=True),
     Family("env_e2e", eval_env_e2e, enumerate=enum_env_e2e, shards_quick=6, shards_thorough=16),
-    Family("disabled", eval_disabled, strategy=strat_disabled, n_quick=150, n_thorough=1500, shards_quick=2,
+    Family("disabled", eval_disabled, strategy=strat_disabled, n_quick=300, n_thorough=1500, shards_quick=2,
            shards_thorough=8),
 ]
 
